@@ -561,3 +561,9 @@ M('heartbeat-emits-start', ['C18'], LN, "                self._emit_event(RunSta
 M('event-type-hardwired', ['C18'], LN, "                    eventType=event_type,", "                    eventType=RunState.RUNNING,", ['C18.R5'])
 M('heartbeat-started-twice', ['C18'], LN, "        if self._thread and self._thread.is_alive():\n            return\n        self._stop_event.clear()", "        self._stop_event.clear()", ['C18.R5'])
 M('heartbeat-ignores-stop', ['C18'], LN, "        while not self._stop_event.is_set():\n            with self._lock:", "        while True:\n            with self._lock:", ['C18.R5'])
+
+# ------------------------------------------------------------------------------------------------------ C12.R6 / R7
+M('ids-multi-all-same', ['C12'], CLI, '                config.id = f"{filter_name}{i}"', '                config.id = f"{filter_name}{len(configs)}"', ['C12.R6'])
+M('ids-named-even-if-given', ['C12'], CLI, "        if (\n            config.id is None\n        ):  # build list of filters without id", "        if (\n            True\n        ):  # build list of filters without id", ['C12.R6'])
+M('conv-keeps-wildcard-host', ['C12'], CLI, """output = f'tcp://{"localhost" if addr[:1] in "*0" else addr}:{port}'""", """output = f'tcp://{addr}:{port}'""", ['C12.R7'])
+M('alloc-connect-port-off-by-one', ['C12'], CLI, '                    id_config.outputs = f"tcp://*:{max_port}"', '                    id_config.outputs = f"tcp://*:{max_port + 1}"', ['C12.R7', 'C12.R1'])
